@@ -1,4 +1,5 @@
 mod enc;
+mod extcases;
 mod gen;
 mod intern;
 mod props;
